@@ -351,12 +351,12 @@ func TestVerifC12(t *testing.T) {
 			} else {
 				why = "near-limit"
 			}
-		default: // don't care: trailing bytes after a valid report
+		default: // data after a valid report: the body is then not a JSON report
 			body, _ = json.Marshal(rep)
-			body = append(body, []byte(verifrt.Pick(rnd, []string{"\n", " ", "{}", "garbage", "\x00"}))...)
-			expect = "dontcare"
-			why = "trailing"
-			if string(body[len(body)-1:]) == "\n" || string(body[len(body)-1:]) == " " {
+			body = append(body, []byte(verifrt.Pick(rnd, []string{"\n", " ", "{}", "garbage", "\x00", "\n{}", " 1", "null", "]"}))...)
+			expect = "reject"
+			why = "trailing-data"
+			if tail := body[len(body)-1]; tail == '\n' || tail == ' ' {
 				expect = "store"
 				why = "trailing-whitespace"
 			}
@@ -550,7 +550,7 @@ func TestVerifC12(t *testing.T) {
 		}
 	}
 	_ = storageRoot
-	res.Require("concurrent-round", "reject:oversize-trailing-blanks", "store:valid", "store:re-upload-shorter", "store:re-upload-longer-or-equal", "reject:week", "reject:config", "reject:X==0", "reject:goos", "reject:goarch", "reject:counter", "reject:stack", "reject:null-program", "reject:empty-unapproved-program",
+	res.Require("concurrent-round", "reject:oversize-trailing-blanks", "reject:trailing-data", "store:trailing-whitespace", "store:valid", "store:re-upload-shorter", "store:re-upload-longer-or-equal", "reject:week", "reject:config", "reject:X==0", "reject:goos", "reject:goarch", "reject:counter", "reject:stack", "reject:null-program", "reject:empty-unapproved-program",
 		"reject:truncated", "reject:wrong-type-or-partial", "reject:oversize", "reject:oversize-chunked", "store:near-limit")
 	if err := res.Write(); err != nil {
 		t.Fatal(err)
